@@ -35,6 +35,7 @@ struct Var {
     int32 id = FAIL;
     bool  created = false;
     bool  late = false, pending = false; // the layout is selected in a later call (possibly a later session) than SDcreate
+    bool  fill_after = false;            // SDsetfillvalue comes after the layout call (both before any data)
     bool  chunked() const { return kind == V_CHUNK || kind == V_CHUNK_COMP || kind == V_CHUNK_NBIT; }
 };
 
@@ -144,6 +145,7 @@ struct Layout : Profile {
                 "datasets with an n-bit layout hold values the bit field represents exactly (n-bit is a projection, C05)",
                 "chunked and compressed layouts have fixed dimensions (the API refuses them for unlimited datasets)",
                 "the ghost area of an edge chunk is not compared",
+                "the fill value is set before the layout is selected (a chunked layout freezes the fill value into its chunk record at SDsetchunk; setting it afterwards only changes the attribute: knob unguard_fill_after_layout shows the difference)",
                 "a fixed-size dataset with an external layout is first written as a whole (never-written cells of an external element are the external file's own bytes: the wrapper use of SDsetexternalfile)"};
     }
     std::vector<std::string> required_probes() const override
@@ -208,7 +210,7 @@ struct Layout : Profile {
                     q.c[v][d]  = d < q.rank ? (int32)(r.chance(0.1) ? e + r.range(1, 2) : r.range(1, e)) : 1;
                 }
                 p.ops.push_back(mkop(0, "variant", {s, k, q.c[v][0], q.c[v][1], q.c[v][2], 1 + (int64_t)r.below(3), r.chance(0.7) ? r.range(1, 9) : r.range(10, 16),
-                                                    r.chance(0.4) ? 1 : r.range(0, 8), (int64_t)r.below(3) * 7, r.range(1, 200), r.chance(0.3) ? 1 : 0}));
+                                                    r.chance(0.4) ? 1 : r.range(0, 8), (int64_t)r.below(3) * 7, r.range(1, 200), r.chance(0.3) ? 1 : 0, r.chance(0.3) ? 1 : 0}));
             }
         }
         for (int s = 0; s < nslot; s++)
@@ -758,10 +760,12 @@ struct Layout : Profile {
         int32 id = SDcreate(s.sd, dsname(si, vi).c_str(), LTS[q.nt].code, q.rank, dims);
         if (id == FAIL)
             s.ctx.fail("create-refused", "create-refused", strf("SDcreate failed: %s", herr().c_str()));
-        if (q.user_fill && SDsetfillvalue(id, q.fill) == FAIL)
+        bool fill_later = q.user_fill && v.fill_after && v.kind != V_CONTIG && s.ctx.plan.knob("unguard_fill_after_layout", 0) != 0;
+        if (q.user_fill && !fill_later && SDsetfillvalue(id, q.fill) == FAIL)
             s.ctx.fail("create-refused", "create-refused:fill", "SDsetfillvalue failed");
         v.id      = id;
         v.created = true;
+        v.fill_after = fill_later;
         if (v.late && defer_ok && v.kind != V_CONTIG) {
             v.pending = true;
             s.ctx.probe("layout-selected-later");
@@ -826,6 +830,11 @@ struct Layout : Profile {
         }
         if (rc == FAIL)
             s.ctx.fail("layout-refused", strf("layout-refused:%s", vname(v.kind)), strf("selecting the %s layout for a dataset without data failed: %s", vname(v.kind), herr().c_str()));
+        if (v.fill_after) {
+            if (SDsetfillvalue(id, q.fill) == FAIL)
+                s.ctx.fail("create-refused", "create-refused:fill-after-layout", strf("SDsetfillvalue after selecting the %s layout failed", vname(v.kind)));
+            s.ctx.probe("fill-after-layout");
+        }
         if (v.chunked() && v.cache > 0)
             SDsetchunkcache(id, v.cache, 0);
         s.ctx.probe(vname(v.kind));
@@ -1077,6 +1086,7 @@ struct Layout : Profile {
                     v.extoff    = (int)std::max<int64_t>(0, o.arg(8));
                     v.blocksize = (int)std::max<int64_t>(1, o.arg(9));
                     v.late      = o.arg(10) != 0;
+                    v.fill_after = o.arg(11) != 0;
                     q.v[q.nvar++] = v;
                 }
             }
